@@ -10,7 +10,7 @@ or a margin's reference size in layout.py breaks these proofs at the next run.
 
 Only property theorems live here; lemmas are in `Lemmas/LayoutSpec.lean`, `Lemmas/LayoutScale.lean`.
 -/
-import PdfVerif.Lemmas.LayoutScale3
+import PdfVerif.Lemmas.LayoutOrder
 
 namespace PdfVerif.Props.C09
 open PdfVerif PdfVerif.Gen.Layout PdfVerif.Layout
@@ -107,6 +107,33 @@ theorem C09_column_order_partial (bf : Rat) (a b : BB) :
     (-1 < bf → a.x0 = b.x0 → b.y0 + b.y1 < a.y0 + a.y1 → key_lrtb bf a < key_lrtb bf b) ∧
     (bf < 1 → a.y0 + a.y1 = b.y0 + b.y1 → a.x0 < b.x0 → key_lrtb bf a < key_lrtb bf b) :=
   ⟨fun h1 h2 h3 => key_lrtb_column bf h1 a b h2 h3, fun h1 h2 h3 => key_lrtb_columns bf h1 a b h2 h3⟩
+
+/-- **Reading order without the hierarchy (`boxes_flow = None`), full statement.**  For every page the
+text boxes come out sorted by the documented positional key: vertical boxes first (by descending right
+edge, then descending bottom edge), then horizontal boxes by descending bottom edge - i.e. the boxes of a
+column top to bottom - and, for equal bottom edges, from left to right. -/
+theorem C09_order_none {le : Cmp} (p : LAParams) (hbf : p.boxes_flow = none) (pageBB : BB) (items : List Item) :
+    (boxesOf (analyze le p pageBB items)).Pairwise (fun a b => tupleLe (getkey a) (getkey b) = true) := by
+  by_cases h : (items.filterMap Item.glyph?).isEmpty = true
+  · have : (analyze le p pageBB items).children = items.map Item.toChild := by simp [analyze, h]
+    have hb : boxesOf (analyze le p pageBB items) = [] := by
+      simp only [boxesOf, this, List.filterMap_map, List.filterMap_eq_nil_iff]
+      intro it _
+      cases it <;> rfl
+    rw [hb]; exact List.Pairwise.nil
+  · have st := stages le p pageBB items (by simpa using h)
+    rw [boxesOf_stages st]
+    exact finalBoxes_none_sorted p hbf pageBB st.boxes
+
+/-- In particular two horizontal boxes `a` before `b` in the output satisfy `b.y0 ≤ a.y0`. -/
+theorem C09_order_none_top_to_bottom (a b : Box) (ha : a.vertical = false) (hb : b.vertical = false)
+    (h : tupleLe (getkey a) (getkey b) = true) : b.bb.y0 ≤ a.bb.y0 := by
+  rw [tupleLe_iff] at h
+  simp only [getkey, ha, hb, Bool.false_eq_true, if_false, getkey_h] at h
+  rcases h with h | ⟨_, h | ⟨h, _⟩⟩
+  · omega
+  · linarith
+  · linarith
 
 /-! ### scale invariance -/
 
